@@ -108,6 +108,7 @@ def readable(spec):
 
 
 def simplify(spec):
+    yield from common.drop_unused_pool(spec)
     ops_ = spec["ops"]
     for i, op in enumerate(ops_):
         if op.get("games") and len(op["games"]) > 1:
